@@ -15,11 +15,11 @@ NOTES = 'All checks: ./check <ID> --tier quick|thorough; exit 0 held, 1 violatio
 _T = 'contract-based deductive verification: VCs generated from the real ASTs by pyvc, discharged by z3/cvc5; effect/frame contracts checked modularly on the AST; bounded stand-ins labelled'
 CLAIMS.update({
     'C01': {'text': 'The safe loaders\' constructor tables are proved closed (YAML 1.1 core tags only, default = reject) by running the module bodies under the proved copy-on-write contract of add_constructor; every function reachable from those tables satisfies an effect contract (no import, no reflection, no computed callee).',
-            'note': 'Result-type and raises-only contracts of the individual converters are not discharged yet; the Cython CParser is trusted (text scan only).', 'technique': _T, 'design_ref': 'DESIGN.md 5/C01'},
+            'note': 'The null/str/bool/int/float converters are proved to return their type and raise only ConstructorError (four genuine defects repaired by fix: commits); timestamp/binary converters are not under contract; the Cython CParser is trusted (text scan only).', 'technique': _T, 'design_ref': 'DESIGN.md 5/C01'},
     'C04': {'text': 'The full loaders\' tables are proved to hold only value constructors plus python/name; the instantiating prefixes are absent; __import__ is guarded by unsafe and no reachable call passes unsafe; reachable functions satisfy the effect contract.',
             'note': 'getattr on an imported module is assumed to return an existing attribute (A-getattr).', 'technique': _T, 'design_ref': 'DESIGN.md 5/C04'},
     'C10': {'text': 'The copy-on-write contract of add_constructor/add_multi_constructor/add_representer/add_multi_representer is discharged over an arbitrary class lattice and arbitrary prior history (view of EVERY class, frame on every pre-existing dict); module-init tables and API helper targets are decided on the AST.',
-            'note': 'add_implicit_resolver/add_path_resolver: bounded stand-in only (all histories <= 3 ops on a 4-class lattice, labelled bounded). Lattices with registry diamonds are excluded by the precondition.', 'technique': _T, 'design_ref': 'DESIGN.md 5/C10'},
+            'note': 'add_implicit_resolver is proved one level deeper (no list that existed is written unless it belongs to the own table of cls; tables of different classes share no list) under the preconditions sep / vals_lists, whose induction over registration histories is the bounded stand-in; add_path_resolver: bounded stand-in only (all histories <= 3 ops on a 4-class lattice, labelled bounded). Lattices with registry diamonds are excluded by the precondition.', 'technique': _T, 'design_ref': 'DESIGN.md 5/C10'},
     'C11': {'text': 'Frame contracts: no function writes a class-level or module-level container, aliased fields are rebound before being written, API calls build one fresh object; per-document reset postconditions.',
             'note': 'Reset postconditions are being added function by function; id()-dependent behaviour and the C back-end are outside.', 'technique': _T, 'design_ref': 'DESIGN.md 5/C11'},
     'C19': {'text': 'Exception transparency as an effect contract over every try statement of the library: no handler can catch an exception of the caller\'s stream or callbacks, no stream I/O happens inside a guarded block, API functions only dispose in finally; plus the frame of C11.',
@@ -27,7 +27,7 @@ CLAIMS.update({
 })
 CLAIMS.update({
     'C13': {'text': 'Contracts on every Composer function (alias = the anchored node itself, define-before-use, duplicate anchors rejected, the node registered under its anchor before its children are composed, anchors reset per document) and on BaseConstructor.construct_object / construct_document (node->object cache returns the same object on every visit, recursion guard, deep flag restored, caches reset per document, all generators exhausted) are discharged for every event sequence of the event grammar and every cache state.',
-            'note': 'The event source (parser) is abstracted by a ghost event sequence assumed to be grammatical; registered constructors are assumed to follow the constructor protocol; two-phase (yield) constructors and the C composer are not under contract here.',
+            'note': 'The event source (parser) is abstracted by a ghost event sequence assumed to be grammatical; registered constructors are assumed to follow the constructor protocol, which is PROVED of the five two-phase (yield) constructors of the safe loader (a new empty container is handed out before any child is constructed and before anything is touched; exactly one yield; protocol kept in the second phase); what happens while a generator is suspended is assumed to stay within the protocol; the C composer is outside.',
             'technique': _T, 'design_ref': 'DESIGN.md 5/C13'},
 })
 CLAIMS.update({
@@ -35,22 +35,22 @@ CLAIMS.update({
             'note': 'The scanner (token grammar, token marks, values between marks) is not under contract: tokens are an assumed well-formed ghost sequence. The event-grammar simulation (events form a word of the grammar) is covered only through the stack typing, not as a separate proof. parse_node is discharged in the thorough tier only.',
             'technique': _T, 'design_ref': 'DESIGN.md 5/C09'},
     'C03': {'text': 'Parser and composer functions are proved to raise only ParserError / ComposerError (or what the layer below raises) for arbitrary token / event sequences: no IndexError, KeyError, AttributeError, TypeError, UnboundLocalError or AssertionError is reachable; the reader primitives are index-safe for every buffer state.',
-            'note': 'The scanner functions are NOT under contract, so "scanning raises only ScannerError and terminates" is not claimed; LibYAML half outside. Termination: only Reader.forward has a variant.',
+            'note': 'Of the scanner only the helpers are under contract (look-ahead predicates, line breaks, block-scalar header, %YAML number, %XX escapes, simple-key bookkeeping, each with a variant); the token builders fetch_* and most scan_* are not, so "scanning raises only ScannerError and terminates" is claimed for those helpers only; LibYAML half outside.',
             'technique': _T, 'design_ref': 'DESIGN.md 5/C03'},
     'C12': {'text': 'Emitter document boundary functions (expect_document_start/end, write_indent/indicator/line_break, write_plain open_ended flag, tag prefixes rebuilt per document) and the parser document loop (parse_document_start/end, process_directives, implicit documents) are under discharged contracts.',
             'note': 'The text-level argument (no content line starts with --- or ...) lives in the scalar writers/scanners, which are not under contract.',
             'technique': _T, 'design_ref': 'DESIGN.md 5/C12'},
-    'C05': {'text': 'Emitter tag/anchor processing is proved: prepared tag/anchor are consumed on every path (nothing leaks into the next node), a scalar tag is elided only when the event marks it implicit for the style actually used, the style choice respects the scalar analysis; stream start/end states accept exactly their event and reject everything else with EmitterError.',
-            'note': 'The emit->parse text inverse is not claimed; prepare_* / analyze_scalar are used through assumed shape contracts; only part of the expect_* state machine is under contract.',
+    'C05': {'text': 'Every emitter state function is proved to install a well-typed next configuration or raise EmitterError for every event and every well-typed stack; emitter tag/anchor processing is proved: prepared tag/anchor are consumed on every path (nothing leaks into the next node), a scalar tag is elided only when the event marks it implicit for the style actually used, the style choice respects the scalar analysis; stream start/end states accept exactly their event and reject everything else with EmitterError.',
+            'note': 'The whole expect_* state machine is under contract (stack typing EST: continuation stack, saved indents, flow_level = open flow collections; pop() never on an empty stack; only EmitterError or what the stream raises), as are prepare_* (all five), analyze_scalar, check_simple_key, process_scalar. Assumed: the four quoted/block scalar writers (frames only), the emit()/need_events dispatch loop, events being instances of the concrete event classes. The emit->parse text inverse is not claimed.',
             'technique': _T, 'design_ref': 'DESIGN.md 5/C05'},
     'C02': {'text': 'The block-scalar header (indentation indicator exactly when the text starts with a space or break; strip/clip/keep by the trailing breaks), the scalar style choice and the tag elision rule are proved for all texts and flag combinations.',
-            'note': 'Only these per-call pieces of the round trip are under contract; the end-to-end inverse (writers vs scanners) is not claimed.',
+            'note': 'Also proved: analyze_scalar allows plain style only for text without line breaks and any style but double quotes only for printable text (for all texts), check_simple_key. Only these per-call pieces of the round trip are under contract; the end-to-end inverse (scalar writers vs scanners) is not claimed.',
             'technique': _T, 'design_ref': 'DESIGN.md 5/C02'},
     'C07': {'text': 'Reader.peek/prefix/forward/get_mark are proved against contracts that mention only the ghost text and position (never buffer, pointer or chunk sizes); determine_encoding is proved to choose the encoding as a function of the delivered bytes alone for every chunking; check_printable reports the absolute offset and is proved against the YAML printable set written from the specification; update_raw performs exactly one bounded read.',
             'note': 'Reader.update (decode loop) is used through an assumed abstract contract; the C input handler is outside.',
             'technique': _T, 'design_ref': 'DESIGN.md 5/C07'},
     'C08': {'text': 'All eight implicit-resolver patterns are translated from their real source and decided as regular-language obligations: complete first-character index, language equality with the YAML 1.1 languages (deviations explicit), pairwise disjointness, dump-side inclusion for int/float/bool/null/date/datetime; counterexamples are strings replayed on the real resolver.',
-            'note': 'Converter values (int/float/timestamp arithmetic) are not under contract yet.',
+            'note': 'The value computed by the int/float/timestamp converters is outside the verifier: a bounded stand-in compares it with an independent reading of the YAML 1.1 type definitions on a finite grid of spellings (labelled bounded, never counted as proved); type and exception class of the converters are proved.',
             'technique': 'contract-based deductive verification: regular-language obligations generated from the real patterns (re._parser) and decided by z3; plus pyvc contracts on choose_scalar_style/process_tag', 'design_ref': 'DESIGN.md 5/C08'},
 })
 CLAIMS.update({
